@@ -169,6 +169,16 @@ theorem OwnInvA.membersNext :
   · simp only [hs, Bool.false_eq_true, if_false]
     exact ⟨⟨ha, hj, hk⟩, key _ _ hj⟩
 
+theorem OwnInvA.removeDown (id : Id) : Pres (OwnInvA a) (modS fun s => { s with ms := removeIfDown s.ms id }) :=
+  Pres.modS_of (fun s hs => by
+    obtain ⟨ha, hj, hk⟩ := hs
+    refine ⟨ha, ?_, hk⟩
+    intro m hm hma
+    simp only at hm
+    rcases removeIfDown_spec s.ms id with h | ⟨x, _, hp⟩
+    · rw [h] at hm; exact hj m hm hma
+    · exact hj m (hp.mem_iff.1 (List.mem_cons_of_mem _ hm)) hma)
+
 theorem OwnInvA.base : Base E (OwnInvA a) (okOwn a) where
   okDown0 := fun _ => Or.inr rfl
   membersApply := OwnInvA.membersApply a
@@ -183,14 +193,6 @@ theorem OwnInvA.base : Base E (OwnInvA a) (okOwn a) where
     rcases hm with hm | hm
     · exact hm
     · simp at hm)
-  removeDown := fun id => Pres.modS_of (fun s hs => by
-    obtain ⟨ha, hj, hk⟩ := hs
-    refine ⟨ha, ?_, hk⟩
-    intro m hm hma
-    simp only at hm
-    rcases removeIfDown_spec s.ms id with h | ⟨x, _, hp⟩
-    · rw [h] at hm; exact hj m hm hma
-    · exact hj m (hp.mem_iff.1 (List.mem_cons_of_mem _ hm)) hma)
   sendMessage := Pres.sendMessage E (by intro s s' h hs; exact OwnInvA.of_same a (by rw [h]) (by rw [h]) (Or.inl (by rw [h])) hs)
   addUpdate := fun m _ => by
     unfold Foca.addUpdate
@@ -376,7 +378,8 @@ theorem OwnInv.step (E : Env) (s : State) (op : Op) (orc : Oracle) (h : OwnInv s
         exact OwnInvA.changeIdentity_same E s.id.addr i p this)
       (fun _ => OwnInvA.reuseDownIdentity s.id.addr)
       (fun _ _ _ _ => Or.inr rfl) (fun _ _ _ _ _ => trivial)
-      (fun _ _ _ _ _ => ⟨trivial, fun _ _ _ _ _ => trivial⟩)).run ⟨s, [], orc⟩ h
+      (fun _ _ _ _ _ => ⟨trivial, fun _ _ _ _ _ => trivial⟩)
+      (fun id _ => OwnInvA.removeDown s.id.addr id)).run ⟨s, [], orc⟩ h
     unfold Foca.step
     cases hr : Foca.runOp E op ⟨s, [], orc⟩ with
     | stuck x => trivial
